@@ -74,7 +74,7 @@ def specBody : List Cmd → List (Option Int) → BodySt → BodyRes
   | .sleep _ :: r, rd, s => specBody r rd s
   | .raise _ :: _, _, _ => .raised
   | .nestIn _ :: r, rd, s => specBody r rd s
-  | .nestOut :: r, rd, s => specBody r rd s
+  | .nestOut _ :: r, rd, s => specBody r rd s   -- also when an exception left the inner block and was caught outside it
   | .commit :: r, rd, s =>
     -- explicit `tx.commit()`: the open segment's write-set goes to the store, a new (empty) segment begins
     specBody r rd { s with done := s.done ++ commitMutsOf s.ov s.del, ov := [], del := [],
